@@ -112,6 +112,123 @@ void random_knobs(Rng &r, const std::string &domain, Json &params) {
 }
 
 // ---------------------------------------------------------------------------
+// Input-level neutralisers
+// ---------------------------------------------------------------------------
+static Stmt havoc_of(const std::string &v, int id) {
+  Stmt h;
+  h.op = Op::HAVOC;
+  h.v = {v};
+  h.id = id;
+  return h;
+}
+
+void rewrite_program(Program &p, const std::string &what) {
+  int hid = 100000;
+  if (what == "break_recursion") {
+    // reach[f] = functions reachable from f through calls
+    std::map<std::string, std::set<std::string>> calls, reach;
+    for (auto &f : p.funcs)
+      for (auto &b : f.blocks)
+        for (auto &s : b.stmts)
+          if (s.op == Op::CALL)
+            calls[f.name].insert(s.k);
+    for (auto &f : p.funcs) {
+      std::vector<std::string> q(calls[f.name].begin(), calls[f.name].end());
+      while (!q.empty()) {
+        std::string g = q.back();
+        q.pop_back();
+        if (reach[f.name].insert(g).second)
+          for (auto &h : calls[g])
+            q.push_back(h);
+      }
+    }
+    for (auto &f : p.funcs)
+      for (auto &b : f.blocks) {
+        std::vector<Stmt> ns;
+        for (auto &s : b.stmts) {
+          if (s.op == Op::CALL && (s.k == f.name || reach[s.k].count(f.name))) {
+            size_t nout = (size_t)s.n.at(0).get_ui();
+            for (size_t i = 0; i < nout && i < s.v.size(); i++)
+              ns.push_back(havoc_of(s.v[i], hid++));
+          } else
+            ns.push_back(s);
+        }
+        b.stmts = ns;
+      }
+    return;
+  }
+  if (what == "drop_dead_end_asserts") {
+    for (auto &f : p.funcs) {
+      if (f.exit.empty())
+        continue;
+      // blocks that can reach the exit
+      std::set<std::string> ok = {f.exit};
+      bool ch = true;
+      while (ch) {
+        ch = false;
+        for (auto &b : f.blocks)
+          if (!ok.count(b.label))
+            for (auto &su : b.succs)
+              if (ok.count(su)) {
+                ok.insert(b.label);
+                ch = true;
+                break;
+              }
+      }
+      for (auto &b : f.blocks)
+        if (!ok.count(b.label)) {
+          std::vector<Stmt> ns;
+          for (auto &s : b.stmts)
+            if (!s.is_assert())
+              ns.push_back(s);
+          b.stmts = ns;
+        }
+    }
+    return;
+  }
+  if (what == "unique_names") {
+    for (auto &f : p.funcs) {
+      std::string pre = (f.name.empty() ? std::string("fn") : f.name) + "__";
+      auto rn = [&](std::string &v) {
+        if (!v.empty() && v.compare(0, pre.size(), pre) != 0)
+          v = pre + v;
+      };
+      for (auto &d : f.vars)
+        rn(d.name);
+      for (auto &v : f.inputs)
+        rn(v);
+      for (auto &v : f.outputs)
+        rn(v);
+      for (auto &b : f.blocks)
+        for (auto &s : b.stmts) {
+          for (auto &v : s.v)
+            rn(v);
+          for (auto &e : s.e)
+            for (auto &t : e.terms)
+              rn(t.first);
+          for (auto &t : s.c.e.terms)
+            rn(t.first);
+        }
+    }
+    return;
+  }
+  if (what.compare(0, 8, "replace:") == 0) {
+    std::string spec = what.substr(8), opn = spec, kind;
+    size_t dot = spec.find('.');
+    if (dot != std::string::npos) {
+      opn = spec.substr(0, dot);
+      kind = spec.substr(dot + 1);
+    }
+    for (auto &f : p.funcs)
+      for (auto &b : f.blocks)
+        for (auto &s : b.stmts)
+          if (opn == op_names[(int)s.op] && (kind.empty() || kind == s.k) && !s.v.empty())
+            s = havoc_of(s.v[0], hid++);
+    return;
+  }
+}
+
+// ---------------------------------------------------------------------------
 // Minimiser: greedy delta debugging over the explicit case. A candidate is
 // accepted only if the SAME violation class persists.
 // ---------------------------------------------------------------------------
